@@ -541,6 +541,11 @@ pub fn untimed_wait_of(tid: i32) -> Option<&'static str> {
         Some("0") => Some("read(2)"),
         // ppoll(fds, nfds, tmo_p, sigmask, sigsetsize)
         Some("271") if f.get(3).copied() == Some("0x0") => Some("ppoll without a time limit"),
+        // connect(fd, ..) on a descriptor in blocking mode
+        Some("42") => {
+            let fd = i32::from_str_radix(f.get(1)?.trim_start_matches("0x"), 16).ok()?;
+            (is_nonblocking(fd) == Some(false)).then_some("connect(2) on a blocking socket")
+        }
         _ => None,
     }
 }
